@@ -17,7 +17,8 @@ CscdImplemented == {\hE4}
 SegAssigned == \h00..\h15
 SegImplemented == {\h00, \h01, \h02, \h0B, \h0C, \h0D}
 
-Kinds == {"facade_bs0", "opcode_ctor", "opcode_len", "prin_sa", "xcopy_cscd_key", "xcopy_seg_key", "xcopy_cscd_type",
+Prior == <<\h00, \h28, \h88, \hA0>>
+Kinds == {"facade_bs0", "opcode_reuse", "opcode_ctor", "opcode_len", "prin_sa", "xcopy_cscd_key", "xcopy_seg_key", "xcopy_cscd_type",
           "xcopy_seg_type", "xcopy_lu_id_type", "tid_isid_without_format", "tid_format_without_isid",
           "tid_consistent"}
 
@@ -35,6 +36,10 @@ Verdict(r) ==
     CASE r.k = "facade_bs0" -> IF r.v = 8 THEN "" ELSE "MissingBlocksizeException"
       [] r.k \in {"opcode_ctor", "opcode_len"} ->
             IF GroupLen(r.v) = Refused THEN "OpcodeException" ELSE ""
+      \* one OpCode object used before with the valid code Prior[v \div 256], then re-pointed
+      \* (public value setter) to v % 256: only the current code counts
+      [] r.k = "opcode_reuse" ->
+            IF GroupLen(r.v % 256) = Refused THEN "OpcodeException" ELSE ""
       [] r.k = "prin_sa" -> IF r.v \in 0..3 THEN "" ELSE "ValueError"
       [] r.k \in {"xcopy_cscd_key", "xcopy_seg_key"} -> IF r.v = 1 THEN "ValueError" ELSE ""   \* v = 1: one unknown key
       [] r.k = "xcopy_cscd_type" ->
